@@ -271,15 +271,18 @@ impl<T: Socket + ?Sized> Worker<T> {
     }
 
     fn check_response(&self) -> Result<(), Box<dyn Error>> {
-        if let Packet::Ack(received_block_number) = self.socket.recv()? {
-            if received_block_number != 0 {
+        match self.socket.recv()? {
+            Packet::Ack(0) => Ok(()),
+            Packet::Error { code, msg } => {
+                Err(format!("Received error code {code}: {msg}").into())
+            }
+            _ => {
                 self.socket.send(&Packet::Error {
                     code: ErrorCode::IllegalOperation,
                     msg: "invalid oack response".to_string(),
                 })?;
+                Err("Invalid oack response".into())
             }
         }
-
-        Ok(())
     }
 }
